@@ -48,9 +48,27 @@ func UnmarshalConst(r io.Reader, budget uint64) (v Value, used uint64, err error
 	if err != nil {
 		return
 	}
-	br := breader{r: r, budget: budget}
+	lr, ok := r.(lenReader)
+	if !ok {
+		// The lengths found in the input are validated against what is left of
+		// it, so its size must be known.
+		var data []byte
+		data, err = io.ReadAll(r)
+		if err != nil {
+			return
+		}
+		lr = bytes.NewReader(data)
+	}
+	br := breader{r: lr, budget: budget}
 	v = br.readConst()
 	return v, budget - br.budget, br.err
+}
+
+// A lenReader is a reader that knows how many bytes are left to read
+// (e.g. *bytes.Buffer, *bytes.Reader, *strings.Reader).
+type lenReader interface {
+	io.Reader
+	Len() int
 }
 
 //
@@ -157,7 +175,7 @@ var budgetConsumed interface{} = "budget consumed"
 //
 
 type breader struct {
-	r   io.Reader
+	r   lenReader
 	err error
 
 	budget uint64
@@ -211,21 +229,30 @@ func (r *breader) readCode(c *Code) {
 		&c.name,
 		&sz,
 	)
+	if !r.checkLen(sz, 4) {
+		return
+	}
 	c.code = make([]code.Opcode, sz)
 	r.read(
 		4*uint64(sz)+8,
 		c.code,
 		&sz,
 	)
+	if !r.checkLen(sz, 4) {
+		return
+	}
 	c.lines = make([]int32, sz)
 	r.read(
 		4*uint64(sz)+8,
 		c.lines,
 		&sz,
 	)
-	c.consts = make([]Value, sz)
-	for i := range c.consts {
-		c.consts[i] = r.readConst()
+	if !r.checkLen(sz, 1) {
+		return
+	}
+	c.consts = nil
+	for i := int64(0); i < sz && r.err == nil; i++ {
+		c.consts = append(c.consts, r.readConst())
 	}
 	r.read(
 		2+2+2+8,
@@ -234,10 +261,29 @@ func (r *breader) readCode(c *Code) {
 		&c.CellCount,
 		&sz,
 	)
-	c.UpNames = make([]string, sz)
-	for i := range c.UpNames {
-		c.UpNames[i] = r.readString()
+	if r.err == nil && (c.UpvalueCount < 0 || c.RegCount < 0 || c.CellCount < 0) {
+		r.err = errInvalidLength
 	}
+	if !r.checkLen(sz, 8) {
+		return
+	}
+	c.UpNames = nil
+	for i := int64(0); i < sz && r.err == nil; i++ {
+		c.UpNames = append(c.UpNames, r.readString())
+	}
+}
+
+// checkLen returns true if n can be the number of items of the given size (in
+// bytes) still to be read from the input.  Otherwise it records an error.
+func (r *breader) checkLen(n int64, itemSize int64) bool {
+	if r.err != nil {
+		return false
+	}
+	if n < 0 || n > int64(r.r.Len())/itemSize {
+		r.err = errInvalidLength
+		return false
+	}
+	return true
 }
 
 func (r *breader) read(sz uint64, xs ...interface{}) {
@@ -268,6 +314,9 @@ func (r *breader) readString() (s string) {
 		return
 	}
 	r.consumeBudget(uint64(sl))
+	if !r.checkLen(sl, 1) {
+		return
+	}
 	b := make([]byte, sl)
 	_, r.err = r.r.Read(b)
 	if r.err == nil {
@@ -287,3 +336,4 @@ func (r *breader) consumeBudget(amount uint64) {
 }
 
 var errInvalidValueType = errors.New("Invalid value type")
+var errInvalidLength = errors.New("Invalid length")
